@@ -6,7 +6,7 @@ from harness import common as C
 
 RULE = ('tables 2-8 nodes per axis, magnitudes 1e-40..1, 1-6 wavenumbers, optional k-table layout (1-4 g-points), '
         'linear/exp mode, optional wavenumber sub-range; (T,P) drawn by quota: interior, 8 outside regions, exact '
-        'nodes, exact edges, +-1ulp around nodes. distinct non-trivial = distinct (mode, layout, region, nT, nP) '
+        'nodes, exact edges, +-1ulp around nodes, first/last node of one axis x other axis outside/inside, corner nodes. distinct non-trivial = distinct (mode, layout, region, nT, nP) '
         'with a non-constant table')
 ASSUMPTIONS = ['np.searchsorted(a, v) on a sorted array = number of elements < v',
                'grids strictly increasing, T > 0, table entries >= 0 (> 0 in exp mode)',
@@ -42,7 +42,8 @@ def make_opacity(tg, pg, tab, wn, mode, weights=None):
     return MemK()
 
 
-REGIONS = ['interior', 'Tlo', 'Thi', 'Plo', 'Phi', 'TloPlo', 'TloPhi', 'ThiPlo', 'ThiPhi', 'node', 'edge', 'ulp']
+REGIONS = ['interior', 'Tlo', 'Thi', 'Plo', 'Phi', 'TloPlo', 'TloPhi', 'ThiPlo', 'ThiPhi', 'node', 'edge', 'ulp',
+           'bnode_out', 'bnode_in', 'corner_node']
 
 
 def gen_case(rng, k):
@@ -90,6 +91,27 @@ def gen_case(rng, k):
     if region == 'ulp':
         T = np.nextafter(tg[int(rng.integers(0, nT))], rng.choice([-np.inf, np.inf]))
         P = np.nextafter(pg[int(rng.integers(0, nP))], rng.choice([-np.inf, np.inf]))
+    if region == 'bnode_out':
+        # one variable exactly on its first/last node, the other outside the grid (below or above);
+        # the eight combinations are enumerated in turn, not drawn
+        combo = (k // len(REGIONS)) % 8
+        below = lambda g: g[0] - rng.uniform(1e-3, 4)
+        if combo < 4:
+            T = tg[0] if combo % 2 == 0 else tg[-1]
+            logP = lp[0] - rng.uniform(1e-3, 4) if combo // 2 == 0 else lp[-1] + rng.uniform(0, 4)
+            P = 10 ** logP
+        else:
+            P = pg[0] if combo % 2 == 0 else pg[-1]
+            T = tg[0] * rng.uniform(0.1, 0.999) if (combo - 4) // 2 == 0 else tg[-1] * rng.uniform(1.0, 3.0)
+    if region == 'bnode_in':
+        # one variable exactly on its first/last node, the other strictly inside
+        if rng.random() < 0.5:
+            T = tg[0] if rng.random() < 0.5 else tg[-1]
+        else:
+            P = pg[0] if rng.random() < 0.5 else pg[-1]
+    if region == 'corner_node':
+        T = tg[0] if rng.random() < 0.5 else tg[-1]
+        P = pg[0] if rng.random() < 0.5 else pg[-1]
     sub = None
     if nwn >= 2 and rng.random() < 0.4:
         i = int(rng.integers(0, nwn - 1))
@@ -152,38 +174,52 @@ def eval_case(ctx, c, from_corpus=False):
     ctx.check_close('Opacity.opacity vs Interp.computeOpacity', out, mod, dict(small, tab=tab), rel=1e-9,
                     abs_=1e-13 * scale)
     # ---- the property's own predicates, on the implementation
+    import math
     lp = np.log10(pg)
+    logP = math.log10(P)          # the code compares math.log10(P) with np.log10(grid)
+    # the property is stated in (T, P); the code decides regions in log10 P. Within an ulp of a pressure node the two
+    # orders can differ by rounding of the logarithm: such inputs are compared with the model but not judged
+    if any((P < q) != (logP < l) or (P > q) != (logP > l) for q, l in zip(pg, lp)):
+        ctx.bucket('ulp-ambiguous-not-judged')
+        return
     tl, tr = bracket(tg, T)
-    pl, pr = bracket(lp, np.log10(P))
+    pl, pr = bracket(lp, logP)
     ti = sorted({tl, tr})
     pi = sorted({pl, pr})
+    # rounding is not modelled: the kernels combine the four nodes of the cell found by find_closest_pair, so their
+    # absolute rounding error scales with the largest of those (a zero node next to 1e-18 comes back as ~1e-34)
+    def cell(g, v):
+        r = max(min(len(g) - 1, int(np.searchsorted(g, v))), 1)
+        return [r - 1, r]
+    ci, cj = cell(lp, logP), cell(tg, T)
     for k, t2 in enumerate(tabs):
         nodes = [t2[i, j] for i in pi for j in ti]
         lo, hi = min(nodes) / 1e4, max(nodes) / 1e4
         v = out[k]
-        both_min = (T < tg[0]) and (np.log10(P) < lp[0])
-        eps = 1e-9 * hi + 1e-300
+        both_min = (T < tg[0]) and (logP < lp[0])
+        eps = 1e-9 * max(t2[i, j] for i in ci for j in cj) / 1e4 + 1e-300
         if both_min:
             if v != 0.0:
                 ctx.violation('bothmin-nonzero', 'below both Tmin and Pmin the documented value is zero',
                               dict(small, tab=tab), dict(value=v))
             continue
-        if not np.isfinite(v) or v < 0:
+        if not np.isfinite(v) or v < -eps:
             ctx.violation('negative-or-nonfinite:' + region_of(tg, lp, T, P), 'cross-section negative or not finite',
                           dict(small, tab=tab), dict(value=v, lo=lo, hi=hi))
         elif v < lo - eps or v > hi + eps:
             ctx.violation('outside-bracket:' + region_of(tg, lp, T, P),
                           'cross-section outside [min,max] of the bracketing nodes (extrapolated)',
                           dict(small, tab=tab), dict(value=v, lo=lo, hi=hi))
-        if len(nodes) == 1 and not C.close(v, nodes[0] / 1e4, rel=1e-12):
+        if len(nodes) == 1 and not C.close(v, nodes[0] / 1e4, rel=1e-12, abs_=eps):
             ctx.violation('node-not-reproduced:' + region_of(tg, lp, T, P), 'tabulated value not reproduced at a node',
                           dict(small, tab=tab), dict(value=v, node=nodes[0] / 1e4))
 
 
 def region_of(tg, lp, T, P):
+    import math
     s = ''
     s += 'Tlo' if T < tg[0] else ('Thi' if T >= tg[-1] else 'Tin')
-    s += 'Plo' if np.log10(P) < lp[0] else ('Phi' if np.log10(P) >= lp[-1] else 'Pin')
+    s += 'Plo' if math.log10(P) < lp[0] else ('Phi' if math.log10(P) >= lp[-1] else 'Pin')
     return s
 
 
